@@ -23,6 +23,16 @@ def absent_ids(edges):
         cands.update([v + '0', v + '!', p + ':' + i[:-1] if len(i) > 1 else p + ':', 'GO:' + i, 'MP:' + i, p + 'X:' + i,
                       p[:-1] + ':' + i if len(p) > 1 else 'A:' + i, p.lower() + ':' + i, p + ':0' + i])
     cands.update(['A:0', '0:0', 'zzz:9', '~:~', 'owl:Thing', 'owl:Thin', 'owl:Thingy', 'HP:0000118', 'HP:9999999'])
+    # look-alikes of known ids: the same number written with other Unicode decimal digits (Arabic-Indic, full-width, mathematical bold), with a
+    # sign, blanks or underscores that int() tolerates, in another Unicode form of the prefix - none of them IS the node
+    for v in nodes[:6] + nodes[-2:]:
+        p, i = v.split(':', 1)
+        if i.isdigit() and i.isascii():
+            for zero in (0x0660, 0xFF10, 0x1D7CE, 0x0966):
+                cands.add(p + ':' + ''.join(chr(zero + int(ch)) for ch in i))
+            cands.update([p + ':+' + i, p + ': ' + i, p + ':' + i + ' ', p + ':' + i[:1] + '_' + i[1:] if len(i) > 1 else p + ':_' + i,
+                          p + ':' + i + '.0', p + ':' + str(int(i)) if str(int(i)) != i else p + ':00' + i])
+        cands.update([''.join(chr(0xFF21 + ord(ch) - 65) if 'A' <= ch <= 'Z' else ch for ch in p) + ':' + i, p + '\u200b:' + i])
     out = []
     for c in sorted(cands):
         if ':' not in c:
@@ -168,6 +178,15 @@ def run(ctx):
                 evaluate(ctx, cases, f'small-scope.k={k}')
                 cases = []
         evaluate(ctx, cases, f'small-scope.k={k}')
+    # graphs the way the real ontology looks: one prefix, ids of one width, all decimal
+    cases = []
+    for _ in range(40 if thorough else 10):
+        n = rng.randrange(3, 14)
+        ids = [f'HP:{i:07d}' for i in sorted(rng.sample(range(1, 9999), n))]
+        edges = [(ids[j], ids[i]) for j in range(1, n) for i in sorted(set(rng.sample(range(j), min(j, rng.choice([1, 1, 2])))))]
+        rng.shuffle(edges)
+        cases.extend(mk_cases(rng, edges, 30))
+    evaluate(ctx, cases, 'uniform-decimal-ids')
     cases = []
     for _ in range(300 if thorough else 60):
         edges, shape, order = gl.random_dag(rng, n=rng.randrange(2, 25 if thorough else 12))
